@@ -365,6 +365,15 @@ send_resp_32(RegP *p, const RPFrame *frame, RPResponse code, const uint32_t pl,
     return send_memory(p, header, size, &realpl, sizeof(realpl));
 }
 
+static inline size_t
+trxbufsize(const RegP *p)
+{
+    /* Including binary-format.h ensures CHAR_BIT is either 8 or 16. */
+    const size_t bs = p->alloc->blocksize * (CHAR_BIT / 8);
+    const size_t fs = sizeof(RPFrame)     * (CHAR_BIT / 8);
+    return bs - fs;
+}
+
 /* Handle early errors. These functions are called when headers have not been
  * parsed yet. They parse a header from a buffer and emit a response. This
  * really should only happen in regp_recv(). Normal code should use
@@ -380,6 +389,10 @@ send_early_response(RegP *p, ByteBuffer *hdrbuf, RPResponse code)
         if (regp_is_request(&frame) == false) {
             /* Responses and meta messages are never answered. */
             return 0;
+        }
+        if (code == RP_RESP_ERXOVERFLOW) {
+            /* This response carries the largest supported message size. */
+            return send_resp_32(p, &frame, code, trxbufsize(p), MSEM_8BIT);
         }
         return send_resp_0(p, &frame, code, MSEM_8BIT);
     }
@@ -420,15 +433,6 @@ setup_buffer(ByteBuffer *b)
 {
     assert(sizeof(RPFrame) < b->size);
     b->used = sizeof(RPFrame);
-}
-
-static inline size_t
-trxbufsize(const RegP *p)
-{
-    /* Including binary-format.h ensures CHAR_BIT is either 8 or 16. */
-    const size_t bs = p->alloc->blocksize * (CHAR_BIT / 8);
-    const size_t fs = sizeof(RPFrame)     * (CHAR_BIT / 8);
-    return bs - fs;
 }
 
 static inline uint32_t
